@@ -10,7 +10,8 @@ from vf.mon.driver import Driver
 from vf.ref import rfc4511
 from vf.ref.session_model import CLOSED, NOTICE_OID
 
-GARBAGE = [b"\x04\x00", b"\xff\x01\x00", b"\x30\x03\x04\x01\x00", b"\x30\x80\x00\x00", b"\x30\x06\x02\x01\x01\x7f\x81\x00", b"\x05\x00"]
+GARBAGE = [b"\x04\x00", b"\xff\x01\x00", b"\x30\x03\x04\x01\x00", b"\x30\x80\x00\x00", b"\x30\x06\x02\x01\x01\x7f\x81\x00", b"\x05\x00",
+           b"\x1f\x25\x00", b"\x30\x08\x02\x01\x01\x42\x00\x1f\x25\x00", b"\x30\x09\x02\x01\x01\x42\x00\x3f\x81\x00\x00"]
 RES0 = (0, "", "", None)
 
 
